@@ -42,8 +42,9 @@ def rule_c07_len(ctx):
     f = ctx.func('codec.ber.decoder.SingleItemDecoder.__call__')
     cfg = ctx.cfg(f)
     rd = reaching_defs(cfg, f.params())
+    from sa.rules import genproto as G
     loops = [n for n in cfg.stmt_nodes() if n.kind == 'for' and isinstance(n.ast.iter, ast.Call) and
-             norm(n.ast.iter.func) == 'concreteDecoder.valueDecoder']
+             any(m.name == 'valueDecoder' for m in G.callee_set(ctx, f, n.ast.iter))]
     stops = [n for n in cfg.stmt_nodes() if n.kind == 'stmt' and norm(n.ast) == 'state = stStop']
     if len(loops) != 1 or not stops:
         raise AnalysisError('definite-length value loop / stStop assignment not found in %s' % f.short)
@@ -79,7 +80,9 @@ def rule_c07_len(ctx):
         return (isinstance(op, ast.NotEq) and rb == 'true') or (isinstance(op, ast.Eq) and rb == 'false')
 
     checks = [n for n in cfg.stmt_nodes() if is_len_check(n)]
-    ok = bool(checks) and all(cfg.must_pass(F, s, lambda n: n in checks) for s in stops if s in cfg.reachable(F, labels_skip=('item',)))
+    # on the paths of a definite length (length == -1 false) the item is not complete before a length check
+    ok = bool(checks) and not any(_feasible_with(cfg, F, s_, checks, {'length == -1': False}) for s_ in stops
+                                  if s_ in cfg.reachable(F, labels_skip=('item',)))
     # only the exhausted edge of F matters: paths from the loop exit
     ctx.ob('C07.len', f, 'consumed == announced length, else raise, before the item is complete', ok,
            'length checks found: %s' % [c.text() for c in checks], node=checks[0].ast if checks else F.ast)
@@ -182,9 +185,19 @@ def rule_a8_pairing(ctx):
                '; '.join(bad) if bad else 'header condition `%s` and append guard agree for supportIndefLenMode=%r' % (norm(hcond), sup),
                node=(c.module.relpath, c.node.lineno))
     # base level: primitive encodings force the definite form
-    ok = any(isinstance(n, ast.If) and norm(n.test) == 'not isConstructed' and
-             any(norm(s) == 'defModeOverride = True' for s in n.body) for n in walk_own(enc.node))
-    ctx.ob('A8.pair', enc, 'primitive contents force the definite form at the base tag', ok, 'found: %s' % ok)
+    forced = [n for n in walk_own(enc.node) if isinstance(n, ast.If) and any(norm(s_) == 'defModeOverride = True' for s_ in n.body)]
+    ok = False
+    for n in forced:
+        cj = set(norm(c) for c in (n.test.values if isinstance(n.test, ast.BoolOp) and isinstance(n.test.op, ast.And) else [n.test]))
+        # `not idx` = "this is the base tag": the enclosing `if not idx:` of the pinned shape, or a conjunct
+        outer = set(norm(a.test) for a in ancestors(n, enc.node) if isinstance(a, ast.If))
+        if 'not isConstructed' in cj and cj | outer <= {'not isConstructed', 'not idx'}:
+            ok = True
+        elif 'not isConstructed' in cj:
+            raise AnalysisError('definite-form override under `%s` not understood' % norm(n.test))
+    ctx.ob('A8.pair', enc, 'primitive contents force the definite form at the base tag', ok,
+           'found: %s' % ok if ok else 'no `defModeOverride = True` under `not isConstructed`: a primitive value would get an indefinite '
+           'header in indefinite mode')
 
 
 def rule_a8_dec(ctx):
@@ -801,37 +814,66 @@ def rule_a6_spec(ctx):
         return sorted(norm(n.test) for n in walk_own(f.node) if isinstance(n, ast.If) and 'requiredComponents' in norm(n.test))
     ctx.ob('A6.spec', fi, 'required-components test is the same as in the definite-length loop', reqtest(fd) == reqtest(fi),
            'definite: %s | indefinite: %s' % (reqtest(fd), reqtest(fi)))
-    cd = _spec_chain(fd, recloop(fd), 'componentType')
-    ci = _spec_chain(fi, recloop(fi), 'asn1Spec')
-    if not cd or not ci:
-        raise AnalysisError('component-spec selection chain not recognised')
-    # normalise: the indefinite variant has one extra arm for "all components seen: expect end-of-octets"
-    def sig(chain, extra_ok):
-        out = []
-        for g, vals in chain:
-            if extra_ok and g == 'len(namedTypes) <= idx' and vals == ['None']:
-                continue
-            out.append((g, tuple(vals)))
-        return out
-    sd, si = sig(cd, False), sig(ci, True)
-    ok = sd == si
-    ctx.ob('A6.spec', fi, 'component-type selection agrees with the definite-length loop (order of guards and values)', ok,
-           'definite: %s | indefinite: %s' % (sd, si))
-    # the extra arm, if present, must come after the SET arm (SET members are looked up by tag in any position)
-    guards = [g for g, v in ci]
-    if 'len(namedTypes) <= idx' in guards:
-        ok = 'isSetType' in guards and guards.index('isSetType') < guards.index('len(namedTypes) <= idx') and guards[0] == 'not namedTypes'
-        ctx.ob('A6.spec', fi, '"all components seen" arm is tried after the schema-less and SET arms', ok, 'guard order: %s' % guards)
-    # post-decode position update chains
-    def pos_chain(f):
+    # ---- per-component type selection and position update, compared as decision tables (sa/dtable.py): every
+    # valuation of the atomic conditions -> the expression the component spec / the position ends up with
+    from sa import dtable
+    L_ATOM = 'len(namedTypes) <= idx'
+
+    def regions(f, specvar):
         lp = recloop(f)
-        for s in lp.body:
-            if isinstance(s, ast.If) and norm(s.test) == 'not isDeterministic and namedTypes':
-                return [(norm(t), [norm(b) for b in body]) for t, body in if_chain(s.body[0])[0]] if s.body and isinstance(s.body[0], ast.If) else None
-        return None
-    pd, pi = pos_chain(fd), pos_chain(fi)
-    ctx.ob('A6.spec', fi, 'component position update agrees with the definite-length loop', pd is not None and pd == pi,
-           'definite: %s | indefinite: %s' % (pd, pi))
+        k = [i for i, s_ in enumerate(lp.body) if isinstance(s_, ast.For) and isinstance(s_.iter, ast.Call) and
+             call_name(s_.iter) == 'decodeFun']
+        if len(k) != 1:
+            raise AnalysisError('component decode loop not found in the record loop of %s' % f.short)
+        pre, post = lp.body[:k[0]], lp.body[k[0] + 1:]
+        cut = [i for i, s_ in enumerate(post) if any(isinstance(c, ast.Call) and call_name(c) == 'setComponentByPosition' for c in ast.walk(s_))]
+        if not cut:
+            raise AnalysisError('component store not found in the record loop of %s' % f.short)
+        # statements before the decode loop that only concern the end-of-octets probe / excess test are not part of
+        # the selection; keep everything, the table ignores what does not assign the targets
+        return pre, post[:cut[0]]
+    try:
+        pre_d, post_d = regions(fd, 'componentType')
+        pre_i, post_i = regions(fi, 'asn1Spec')
+        al_d = dtable.single_aliases(recloop(fd).body, exclude=('componentType', 'idx', 'component'))
+        al_i = dtable.single_aliases(recloop(fi).body, exclude=('asn1Spec', 'idx', 'component'))
+        td, ad = dtable.table(pre_d, {'componentType'}, rename={'componentType': 'spec'}, aliases=al_d)
+        ti, ai = dtable.table(pre_i, {'asn1Spec'}, rename={'asn1Spec': 'spec'}, aliases=al_i)
+        ud, aud = dtable.table(post_d, {'idx'}, aliases=al_d)
+        ui, aui = dtable.table(post_i, {'idx'}, aliases=al_i)
+    except dtable.Unknown as x:
+        raise AnalysisError('record loop selection region not understood: %s' % x)
+
+    def cmp_tables(t1, a1, t2, a2, what):
+        common = sorted(set(a1) | set(a2))
+        bad = []
+        for key2, r2 in t2.items():
+            if L_ATOM in key2 and 'isSetType' not in key2 and 'namedTypes' in key2:
+                continue        # all components seen (SEQUENCE): the indefinite loop expects end-of-octets here
+            if 'jump' in r2 or 'raise' in r2:
+                continue        # exits of the indefinite form only (end-of-octets reached, excess component)
+            for key1, r1 in t1.items():
+                if all((a in key1) == (a in key2) for a in common if a in a1 and a in a2):
+                    x1 = dict((k, v) for k, v in r1.items() if k in ('spec', 'idx'))
+                    x2 = dict((k, v) for k, v in r2.items() if k in ('spec', 'idx'))
+                    if x1 != x2:
+                        bad.append((sorted(key2), x1, x2))
+        return bad
+    bad = cmp_tables(td, ad, ti, ai, 'spec')
+    ctx.ob('A6.spec', fi, 'component-type selection agrees with the definite-length loop (decision tables)', not bad,
+           'under %s the definite loop selects %s, the indefinite loop %s' % bad[0] if bad else
+           '%d x %d valuations agree (atoms: %s)' % (len(td), len(ti), sorted(set(ad) | set(ai))))
+    # the "all components seen" arm must not capture SET members (looked up by tag in any position) nor the schema-less case
+    leak = [sorted(k) for k, r in ti.items() if L_ATOM in k and 'isSetType' in k and 'namedTypes' in k and
+            r.get('spec') == 'None']
+    if L_ATOM in ai:
+        ctx.ob('A6.spec', fi, '"all components seen" arm is tried after the schema-less and SET arms', not leak,
+               'for a SET (%s) the member spec is None once idx passed the last position: members after the last-declared '
+               'one are decoded without their schema' % leak[0] if leak else 'SET members keep tagMapUnique at any position')
+    bad = cmp_tables(ud, aud, ui, aui, 'idx')
+    ctx.ob('A6.spec', fi, 'component position update agrees with the definite-length loop', not bad,
+           'under %s the definite loop sets %s, the indefinite loop %s' % bad[0] if bad else
+           '%d x %d valuations agree (atoms: %s)' % (len(ud), len(ui), sorted(set(aud) | set(aui))))
     # both variants store with the same flags
     def stores(f):
         lp = recloop(f)
